@@ -239,6 +239,90 @@ def cache_refinement_stage(chk: core.Check, n_small: int, big: int):
     return {"histories": len(hist), "disagreements": bad, "soak_stores": big, "lost": lost}
 
 
+def settings_stage(chk: core.Check, n: int, n_engine: int):
+    """create_test's merge of the configured Hypothesis settings under a LOADED (non-stock) Hypothesis profile vs ModelH_C12.effective,
+    and the property itself: the test runs with the configured max_examples / stateful_step_count, and the fuzzing phase sends at
+    most max_examples cases for an operation on which nothing fails."""
+    import datetime
+
+    import hypothesis
+
+    import schemathesis
+    from schemathesis.generation import GenerationConfig
+    from schemathesis.generation.hypothesis.builder import SETTINGS_ATTRIBUTE_NAME, HypothesisTestConfig, HypothesisTestMode, create_test
+
+    rng = chk.rng
+    raw = U.schema_with_ops(1)
+    DEADLINES = [None, 200, 500, 15000]          # ms; 200 is Hypothesis' stock default
+    stock = hypothesis.settings.get_profile("default")
+
+    def ms(d):
+        return 0 if d is None else (int(d.total_seconds() * 1000) if isinstance(d, datetime.timedelta) else int(d)) // 100    # units of 100 ms
+
+    def vec(st):
+        return [st.max_examples, ms(st.deadline), st.stateful_step_count, 1 if st.derandomize else 0]
+
+    cases = []
+    for k in range(n):
+        prof = {"max_examples": rng.choice([100, 100, 10, 240, 37]), "deadline": rng.choice(DEADLINES), "stateful_step_count": rng.choice([50, 6, 80]),
+                "derandomize": rng.random() < 0.2}
+        conf = {"max_examples": rng.choice([100, 100, prof["max_examples"], 5, 240, 60]), "deadline": rng.choice(DEADLINES + [prof["deadline"]]),
+                "stateful_step_count": rng.choice([50, prof["stateful_step_count"], 6, 20]), "derandomize": rng.choice([prof["derandomize"], False, True])}
+        cases.append({"profile": prof, "configured": conf})
+    exprs, obs = [], []
+    for c in cases:
+        name = "verif_profile"
+        hypothesis.settings.register_profile(name, database=None, **c["profile"])
+        hypothesis.settings.load_profile(name)
+        try:
+            active = hypothesis.settings.default
+            configured = hypothesis.settings(database=None, **c["configured"])
+            schema = schemathesis.openapi.from_dict(raw)
+            op = schema["/r0/{id}"]["GET"]
+
+            def test_func(case):
+                pass
+
+            test = create_test(operation=op, test_func=test_func,
+                               config=HypothesisTestConfig(generation=GenerationConfig(), modes=[HypothesisTestMode.FUZZING], settings=configured))
+            eff = getattr(test, SETTINGS_ATTRIBUTE_NAME)
+            a, cf, e = vec(active), vec(configured), vec(eff)
+        finally:
+            hypothesis.settings.load_profile("default")
+        chk.seen({"settings_merge": c}, c["profile"]["max_examples"] != 100)
+        exprs.append(f"(let eff := effective ActiveProfile (of_list {clist([cnat(x) for x in a], 'nat')}) (of_list {clist([cnat(x) for x in vec(stock)], 'nat')}) "
+                     f"(of_list {clist([cnat(x) for x in cf], 'nat')}) in [eff 0; eff 1; eff 2; eff 3])")
+        obs.append((c, a, cf, e))
+        # the property: configured limits are the ones the test runs with
+        if e[0] != cf[0] or e[2] != cf[2]:
+            chk.fail(f"the test runs with max_examples={e[0]} / stateful_step_count={e[2]} although {cf[0]} / {cf[2]} were configured "
+                     f"(Hypothesis profile with max_examples={a[0]} loaded)", c)
+    model = core.coq_eval(["C12.ModelH_C12"], exprs) if exprs else []
+    bad = 0
+    for (c, a, cf, e), m in zip(obs, model):
+        if [int(x) for x in m] != e:
+            bad += 1
+            chk.disagree("create_test: effective Hypothesis settings [max_examples, deadline (100 ms), stateful_step_count, derandomize] vs ModelH_C12.effective",
+                         c, e, [int(x) for x in m])
+    # end to end under a loaded profile
+    over = 0
+    for k in range(n_engine):
+        me = rng.choice([100, 100, 7])
+        hypothesis.settings.register_profile("verif_profile", database=None, max_examples=rng.choice([240, 150]))
+        hypothesis.settings.load_profile("verif_profile")
+        try:
+            evs, reqs = run_engine(U.schema_with_ops(1), U.make_responder(["ok"]), phases=["fuzzing"], workers=rng.randint(1, 2), max_examples=me, seed=k + 1)
+        finally:
+            hypothesis.settings.load_profile("default")
+        sent = [r for r in reqs if U.op_index(r["target"]) is not None]
+        chk.seen({"settings_engine": [me, k]}, True)
+        if len(sent) > me:
+            over += 1
+            chk.fail(f"fuzzing phase sent {len(sent)} cases for an operation on which nothing fails, max_examples={me} (a Hypothesis profile with a larger max_examples is loaded)",
+                     {"max_examples": me, "seed": k + 1})
+    return {"merges": len(cases), "disagreements": bad, "engine_runs": n_engine, "over_max_examples": over}
+
+
 class LimiterLog:
     def __init__(self):
         self.grants = []
